@@ -27,8 +27,28 @@ def register(reg):
     reg.classdecl("RuleImputeManager", {"database": DB})
     reg.specfun("DEC", [STR], Ty("map", STR, INT), value_of="RSMIDecomposer.decompose")   # value of RSMIDecomposer.decompose
     reg.specfun("VALID", [STR], BOOL)                # RDKit parses the SMILES
-    reg.contract(F, "RuleImputeManager.is_valid_smiles", params={"smiles": STR}, returns=BOOL, assumed=True, pure=True,
-                 ensures=["result == VALID(smiles)"], note="Chem.MolFromSmiles(smiles) is not None", props=["C19"])
+    import z3 as _z3
+    from pyvc.state import Unsupported
+    reg.classdecl("RdkMol", {})
+
+    @reg.external("Chem.MolFromSmiles")
+    def _mol_from_smiles(eng, st, ctx, args, kw, node):
+        """RDKit's parser: None unless the string is a valid molecule.  VALID(s) is validity *with* sanitisation (what decompose relies
+        on); a call that switches sanitisation off is a different, weaker test"""
+        s_ = eng.coerce(args[0], STR, st)
+        pred = "VALID"
+        if "sanitize" in kw:
+            if not (_z3.is_false(kw["sanitize"].t) or _z3.is_true(kw["sanitize"].t)):
+                raise Unsupported("MolFromSmiles with a non-constant sanitize flag")
+            if _z3.is_false(kw["sanitize"].t):
+                pred = "PARSES_UNSANITIZED"
+        ok = eng.uf(pred, [S], B)(s_.t)
+        r = eng.uf("MOLOF", [S], I)(s_.t)
+        st.assume(_z3.And(0 <= r, r < st.alloc))
+        return SV(Obj("RdkMol"), r, none=_z3.Not(ok))
+
+    reg.contract(F, "RuleImputeManager.is_valid_smiles", params={"smiles": STR}, returns=BOOL, pure=True,
+                 ensures=["result == VALID(smiles)"], props=["C19"])
     reg.contract("synrbl/SynProcessor/rsmi_decomposer.py", "RSMIDecomposer.decompose", params={"smiles": STR}, returns=COMP,
                  fresh_result=True, assumed=True,
                  ensures=["same_map(result, DEC(smiles))"],
